@@ -75,7 +75,7 @@ func genC19(c *Ctx) *Plan {
 			case 1:
 				dt = pt + 1_000_000
 			}
-			p.Ops = append(p.Ops, Op{Kind: "relay", A: int64(r.intn(2)), B: int64(r.pick(0, 1, 1, 2)), C: dt})
+			p.Ops = append(p.Ops, Op{Kind: "relay", A: int64(r.intn(2)), B: int64(r.pick(0, 1, 1, 2, 3)), C: dt}) // B=3: the relay's own send to the target fails with an error
 		}
 	}
 	return p
@@ -501,6 +501,13 @@ func execC19(c *Ctx) {
 			q := uint32(90000 + ei)
 			ind := indirectPingReq{SeqNo: q, Target: tip, Port: 7946, Node: "t", Nack: op.A == 1, SourceAddr: reqIP, SourcePort: 7946, SourceNode: "req"}
 			t0 := sim.Now()
+			tgtAddr := fmt.Sprintf("%s:%d", tip, 7946)
+			if op.B == 3 {
+				b.n.ep.mu.Lock()
+				b.n.ep.failTo = map[string]bool{tgtAddr: true}
+				b.n.ep.mu.Unlock()
+				c.Reach("relay_send_error")
+			}
 			b.n.ep.deliverPacket(mustEncode(indirectPingMsg, &ind), &net.UDPAddr{IP: reqIP, Port: 7946})
 			sim.Run(2*conf.ProbeTimeout + 10*time.Millisecond)
 			sim.Settle()
@@ -516,6 +523,14 @@ func execC19(c *Ctx) {
 				}
 			}
 			what := fmt.Sprintf("episode %d relay(nack=%v, target ack kind %d after %v)", ei, op.A == 1, op.B, time.Duration(op.C))
+			if op.B == 3 {
+				b.n.ep.mu.Lock()
+				b.n.ep.failTo = nil
+				b.n.ep.mu.Unlock()
+				if relayPing == nil {
+					relayPing = &ping{Node: "t"} // the send was refused before it reached the wire
+				}
+			}
 			if relayPing == nil {
 				c.Violate("relay-no-ping", "", "obs", "%s: node did not ping the target", what)
 				return
